@@ -156,3 +156,11 @@ chk("C20", "fault_enumeration",
     "Oracle: no panic / stack trace, non-zero status with a message naming a cause (or the requested output with status 0), exit 0 + 'Goodbye.' for self exits, termios after exit equal to termios before start.",
     "Which of two faults is named and whether an informational flag wins over a fault is not fixed by the statement: either accepted. Root ignores file modes, so 'unwritable' is a parent that is a regular file.",
     "DESIGN.md 5 C20")
+
+chk("C12", "exploration",
+    "bounded exhaustive enumeration of -one-shell session histories of the real binary on a pty with real TLS clients",
+    "The real binary with -one-shell: pre-attempt sequences (length <=1 quick, <=2 thorough) over {half-attached input that leaves, half-attached output that leaves, refused output beside a held input} x arrival {/i then /o, /o then /i, /io} "
+    "x ending {input closed, output closed, both, output EOF} x traffic in flight x exit trigger {line, Ctrl+D}; oracle: TCP connects succeed before the shell is fully attached (also while half attached) and are refused within 20 s after the ready notice; "
+    "a marker goes both ways right after the close and again 2.5 s later; nothing in flight is lost; no one-liners after the shell is gone; exit 0 with Goodbye after at most one more line; termios restored.",
+    "'shortly' = refused at some poll within 20 s; the operator's line is entered 3 s after the shell is gone (net/http's graceful shutdown polls at up to 500 ms, a line typed inside that window is consumed first).",
+    "DESIGN.md 5 C12")
